@@ -11,6 +11,9 @@ AllRespDefects == {"state", "tenant", "nononce", "badnonce", "signer", "mixed", 
                    "expired", "stale", "foreigndef", "unfulfilled", "forgedmap"}
 AllTokDefects == {"nocode", "code", "client", "verifier", "baddpop"}
 
+\* generation of the reserved-claim behaviours: one token request, then introspections
+OneRequest == npres <= 1
+
 \* one witness behaviour per distinct (state, last action): used with VIEW viewLast
 Emit == Hist => PrintT(ToJson(hist))
 \* witnesses of the dangerous inputs of the descriptive model
